@@ -94,6 +94,9 @@ def run(run):
                                  {"probe": name})
         elif out.startswith("INFO:"):
             run.histogram["exposed-internal:" + out[5:40]] = 1
+        elif 'class="error"' in out or "Lua execution error" in out:
+            # a probe that does not run decides nothing (a syntax error in it would silently pass otherwise)
+            run.correspondence_break("attack probe %s did not run to completion" % name, {"probe": name}, out=out[:200])
         elif out.startswith("RAISED:"):
             run.property_failure("c06:probe-raised:%s" % name, "probe %s made expand() raise %s" % (name, out), {"probe": name})
     for k, v in res["effects"].items():
